@@ -24,10 +24,9 @@ def S(kind="opt", full=False, one=(), rank=False, two=(), allf=False, vcov=None)
 
 
 def groups(n):
-    """(group name, spec, thorough?) for length n. Float-heavy kernels (std/var/skew/kurt, zscore, minmaxnorm, cov/corr,
-    the trend regressions and the regx residual family) cost 30-100 s EACH at N = 3 although only the length is asserted
-    (CBMC does not separate the float data path from the length), and several of them in one formula scale worse than
-    linearly; at N = 3 they are therefore run one entry point per harness in the thorough tier only."""
+    """(group name, spec, thorough?) for length n. The float data path is not separable from the length for CBMC, and
+    several float-heavy kernels (std/var/skew/kurt, zscore, minmaxnorm, cov/corr, the regressions) in one formula scale
+    worse than linearly: at N >= 2 they are run at most two per harness."""
     if n == 0:
         # empty input: the callbacks are never invoked, so ts_vcov is not restricted here
         return [("vfeat", S(one=VFEAT_A + VFEAT_B), False), ("feat", S("int", one=FEAT_A + FEAT_B), False),
@@ -50,16 +49,15 @@ def groups(n):
              ("cmp_a", S(full=True, one=CMP[:2]), n > 3), ("cmp_b", S(full=True, one=CMP[2:]), n > 3),
              ("vrank", S(full=True, rank=True), n > 3), ("regx_a", S(two=REGX_A, allf=True), n > 3),
              ("regx_b", S(two=REGX_B), n > 3)]
-    if n > 3:
-        return cheap
-    heavy = [(f[3:], S(one=[f]), True) for f in VFEAT_B + NORM + REG]
-    heavy += [(f[3:], S("int", one=[f]), True) for f in FEAT_B]
-    heavy += [(f[3:], S(two=[f]), True) for f in ["ts_vcorr"]]
-    heavy += [("vcov", S(vcov="eff1"), True)]
-    return cheap + heavy
+    # float-heavy entry points: two per harness (four per harness is 4-10 times the cost of two pairs)
+    heavy = [("vstd_vvar", S(one=VFEAT_B[:2]), False), ("vskew_vkurt", S(one=VFEAT_B[2:]), False),
+             ("std_var", S("int", one=FEAT_B[:2]), False), ("skew_kurt", S("int", one=FEAT_B[2:]), False),
+             ("norm", S(one=NORM), False), ("binary", S(two=["ts_vcorr"], vcov="eff1"), False),
+             ("reg_a", S(one=REG[:2]), False), ("reg_b", S(one=REG[2:4]), False), ("reg_c", S(one=REG[4:]), False)]
+    return cheap + [(g, sp, n > 3) for g, sp, _ in heavy]
 
 
-def harness(name, n, spec, thorough=False, extra_pre=(), covers=True):
+def harness(name, n, spec, thorough=False, extra_pre=(), covers=True, extra_post=()):
     kind, needs_full, one, rank, two, allf, vcov = spec
     L = []
     if thorough:
@@ -102,6 +100,7 @@ def harness(name, n, spec, thorough=False, extra_pre=(), covers=True):
         L.append('    kani::cover!(p.mp == Some(0), "explicit min_periods 0");')
         if not (needs_full and n == 0):
             L.append('    kani::cover!(p.mp.is_none(), "omitted min_periods");')
+    L.extend("    " + e for e in extra_post)
     L.append("}")
     return "\n".join(L) + "\n"
 
@@ -117,8 +116,22 @@ def main():
     out.append(harness("c05_len_vrank_n0", 0, S(full=True, rank=True), covers=False))
     # isolated: ts_vcov with effective min_periods 0
     out.append(harness("c05_len_vcov_mp0_n1", 1, S(vcov="any"),
-                       extra_pre=["kani::assume(p.eff == 0);"], covers=False))
-    cnt += 2
+                       extra_pre=["kani::assume(p.eff == 0);"], covers=False,
+                       extra_post=['kani::cover!(v[0].is_none() || o[0].is_none(), "no complete pair in the only window, effective min_periods 0");']))
+    # isolated: integer output container of the extrema (null is `None.cast::<i32>()`)
+    out.append("""#[kani::proof]
+#[kani::stub(std::fmt::format, crate::util::fmt_stub)]
+#[kani::unwind(2)]
+pub fn c05_len_minmax_i32out_n1() {
+    let p = params::<1>(true);
+    let v = opt_input::<1>();
+    let out: Vec<i32> = v.ts_vmin(p.w, p.mp);
+    assert!(out.len() == 1, "ts_vmin -> Vec<i32>: exactly one output per input element");
+    let out: Vec<i32> = v.ts_vmax(p.w, p.mp);
+    assert!(out.len() == 1, "ts_vmax -> Vec<i32>: exactly one output per input element");
+}
+""")
+    cnt += 3
     with open(OUT, "w") as f:
         f.write("\n".join(out))
     print("wrote", OUT, "harnesses:", cnt)
